@@ -144,6 +144,34 @@ def deep_digest(lTokens, skip=("_vu",)):
     return out
 
 
+def cfg_digest(lRules, skip=None):
+    """the configurable attributes of every rule, by value (C06: the analysis of one rule must not change what another
+    rule is configured to do - e.g. by sorting an option list that several rules share)"""
+    out = []
+    for r in lRules:
+        if r is skip:
+            continue
+        vals = []
+        for name in getattr(r, "configuration", []):
+            try:
+                v = getattr(r, name)
+            except Exception:
+                continue
+            vals.append((name, _norm(getattr(v, "value", v)) if not isinstance(v, (list, dict, str, int, float, bool, type(None), tuple)) else _norm(v)))
+        out.append((getattr(r, "unique_id", "?"), tuple(vals)))
+    return out
+
+
+def cfg_diff(a, b):
+    for (ra, va), (rb, vb) in zip(a, b):
+        if va != vb:
+            da, db = dict(va), dict(vb)
+            for k in da:
+                if da[k] != db.get(k):
+                    return "configuration of rule %s changed: %s: %r -> %r" % (ra, k, da[k], db.get(k))
+    return None
+
+
 def deep_diff(a, b):
     """first attribute that differs between two deep digests -> description"""
     if len(a) != len(b):
@@ -259,6 +287,7 @@ def wrap_rule(T, oRule):
         else:
             d0 = cheap_digest(lAll0)
         D0 = deep_digest(oFile.lAllObjects) if T.deep else None
+        C0 = cfg_digest(getattr(T, "all_rules", []), skip=oRule) if T.deep else None
         m0 = map_digest(oFile)
         nv0 = len(oRule.violations)
         try:
@@ -276,7 +305,7 @@ def wrap_rule(T, oRule):
         if not map_same:
             what = "the analysis changed the token index (oTokenMap)"
         if T.deep:
-            what = deep_diff(D0, deep_digest(oFile.lAllObjects)) or what
+            what = deep_diff(D0, deep_digest(oFile.lAllObjects)) or cfg_diff(C0, cfg_digest(getattr(T, "all_rules", []), skip=oRule)) or what
             pure = pure and what is None
         if not pure:
             T.dirty = True
@@ -592,6 +621,7 @@ def install():
         if T is not None and not T.muted:
             for oRule in self.rules:
                 wrap_rule(T, oRule)
+            T.all_rules = self.rules
 
     RL.__init__ = rl_init
 
@@ -700,13 +730,14 @@ def install():
 
             _random.Random(T.shuffle).shuffle(self.rules)
         D0 = deep_digest(self.oVhdlFile.lAllObjects) if getattr(T, "deep_ends", False) else None
+        C0 = cfg_digest(self.rules) if getattr(T, "deep_ends", False) else None
         try:
             ret = orig_check(self, bAllPhases, lSkipPhase)
         except Exception as e:
             T.emit({"e": "CheckAbort", "exc": type(e).__name__})
             raise
         if D0 is not None:
-            what = deep_diff(D0, deep_digest(self.oVhdlFile.lAllObjects))
+            what = deep_diff(D0, deep_digest(self.oVhdlFile.lAllObjects)) or cfg_diff(C0, cfg_digest(self.rules))
             if what is not None:
                 T.emit({"e": "CheckImpure", "what": what})
         T.emit({"e": "CheckEnd", "last": int(self.lastPhaseRan), "ran": int(self.iNumberRulesRan), "viol": bool(self.violations)})
